@@ -412,7 +412,7 @@ def _k5b(ctx, kr, P):
     key = P.find_fn('ironplc-parser', 'parser::flatten_statements')
     SOE = P.enums['StatementsOrEmpty']; iS = SOE.index('Statements')
     M = Machine(P); st = {}
-    for n in range(1, 6):
+    for n in range(1, 5 if ctx.tier == 'quick' else 6):
         def entry(M):
             items = []; exp = []; shape = []
             for i in range(n):
@@ -450,8 +450,8 @@ def _k5b(ctx, kr, P):
 def k5(ctx, kr):
     global _CTX
     _CTX = ctx
-    LMAX = 9 if ctx.tier == 'quick' else 13
-    kr.bounds = 'statement_list over every token sequence of length 1..%d whose token types are symbolic over {Identifier, :=, Digits, ;}: accepted iff a statement list (empty statements allowed), and the statements returned are exactly the assignments written, in order; flatten_statements on every list of <= 5 items the grammar can produce (runs of 1..3 statements, never adjacent, and empty statements)' % LMAX
+    LMAX = 8 if ctx.tier == 'quick' else 13
+    kr.bounds = 'statement_list over every token sequence of length 1..%d whose token types are symbolic over {Identifier, :=, Digits, ;}: accepted iff a statement list (empty statements allowed), and the statements returned are exactly the assignments written, in order; flatten_statements on every list of <= 4 [thorough: 5] items the grammar can produce (runs of 1..3 statements, never adjacent, and empty statements)' % LMAX
     jobs = [(L, None) for L in range(min(LMAX, 9), 0, -1)]
     big = [L for L in range(10, LMAX + 1)]
     for L, pref in zip(big, par_map(_k5_job, [(L, 'split') for L in big])):
@@ -465,4 +465,191 @@ def k5(ctx, kr):
     kr.assumptions = ['reference: IEC 61131-3 B.3.2 statement_list with NIL statements, as a DFA over the token types unrolled into a formula']
     kr.outside = ['nested statement lists (IF/CASE/FOR bodies), other statement kinds, longer sequences']
 
-KERNELS = [k1, k4, k5]
+# ---------------------------------------------------------------------------------------------- K6 every name written comes back once, in source order
+# Shapes of source templates (shared with C10-K3) with every identifier occurrence made unique: the sequence of names in the library returned
+# by parse_program (depth-first, fields in declaration order) must be the sequence of name tokens of the source.
+KEEP_WORDS = {'interval', 'priority', 'n', 'r', 's', 'l', 'd', 'p', 'sd', 'ds', 'sl', 'p0', 'p1', 'read_write', 'read_only', 't', 'e'}
+TYPE_TOKENS = None
+
+def _name_tokens(ctx, text):
+    """(kind, text) of the tokens that denote names: identifiers and elementary type keywords (which the parser turns into type names)"""
+    from mirsym import lexlift
+    from . import lexcommon as LC
+    LM = LC.lexmodel(ctx)
+    data = text.encode()
+    return [(k, data[a:b].decode()) for k, a, b in lexlift.lex_concrete(LM, data)]
+
+ELEMENTARY = {'Bool', 'Sint', 'Int', 'Dint', 'Lint', 'Usint', 'Uint', 'Udint', 'Ulint', 'Real', 'Lreal', 'Time', 'Date', 'TimeOfDay', 'Tod', 'DateAndTime', 'Dt', 'String', 'WString', 'Byte', 'Word', 'Dword', 'Lword'}
+
+def _uniquify(ctx, text):
+    """rename every identifier occurrence to a unique name (the parser does not care whether a name is declared); returns (text, expected name sequence)"""
+    toks = _name_tokens(ctx, text)
+    out = []; expect = []; k = 0
+    for i, (kind, tx) in enumerate(toks):
+        nxt = toks[i + 1][0] if i + 1 < len(toks) else None
+        if kind == 'Identifier' and not (tx.isupper() and tx.lower() in KEEP_WORDS) and nxt != 'Hash':
+            k += 1; nm = 'nm%dq' % k; out.append(nm); expect.append(nm)
+        else:
+            out.append(tx)
+            if kind in ELEMENTARY and nxt != 'Hash': expect.append(tx)
+            elif kind == 'Identifier' and nxt == 'Hash' and tx.lower() not in ('t', 'd'): expect.append(tx)      # type name of a typed literal / enumeration value
+    return ''.join(out), expect
+
+def _ids_in_order(M, v, out):
+    if isinstance(v, Agg) and v.name.split('::')[-1] == 'Id' and len(v.f) == 3 and isinstance(v.f[0], Str):
+        out.append(v.f[0].conc()); return
+    if isinstance(v, (Agg, EnumV)):
+        order = FIELD_ORDER.get(v.name.split('::')[-1]) if isinstance(v, Agg) else None
+        for x in ([v.f[i] for i in order] if order and len(order) == len(v.f) else v.f): _ids_in_order(M, x, out)
+    elif isinstance(v, VecV):
+        for x in v.items: _ids_in_order(M, x, out)
+    elif isinstance(v, Ref): _ids_in_order(M, M.get(v.cell, v.path), out)
+
+# structs of ironplc_dsl whose fields are not declared in the order their parts are written (read from dsl/src/textual.rs: `Repeat { until, body }` is written `REPEAT body UNTIL until`)
+FIELD_ORDER = {'Repeat': [1, 0]}
+
+def _fbt(decl, body): return ['FUNCTION_BLOCK fb\nVAR\n  x : INT;\n'] + decl + ['END_VAR\n'] + body + ['END_FUNCTION_BLOCK\n']
+# templates used by K6 only (C10-K3 keeps its own list so that its known findings stay put)
+EXTRA_TEMPLATES = {
+    'case_many_selectors': _fbt([], ['  CASE sel OF\n    1', ('opt', ', 2'), ('opt', ', 3..5'), ':\n      a := b;\n', ('opt', '    6:\n      c := d;\n      e := f;\n'), ('opt', '    7, 8:\n      g := h;\n'), ('opt', '  ELSE\n    i := j;\n    k := l;\n'), '  END_CASE;\n']),
+    'nested_statements': _fbt([], ['  IF c1 THEN\n    FOR i := lo TO hi', ('opt', ' BY st'), ' DO\n      WHILE c2 DO\n        a := b;\n', ('opt', '        c := d;\n'), '      END_WHILE;\n', ('opt', '      e := f;\n'), '    END_FOR;\n',
+                                    ('opt', '  ELSIF c3 THEN\n    REPEAT\n      g := h;\n    UNTIL c4\n    END_REPEAT;\n'), ('opt', '  ELSE\n    k := l;\n'), '  END_IF;\n', ('opt', '  m := n;\n')]),
+    'call_arguments': _fbt([], ['  r := fn(', ('alt', ['a1', 'a1, a2', 'a1, a2, a3', 'p1 := a1', 'p1 := a1, p2 := a2', 'p1 := a1, p2 := a2, p3 := a3']), ');\n  inst(', ('alt', ['', 'q1 := b1', 'q1 := b1, q2 := b2', 'q1 := b1, o1 => c1', 'q1 := b1, o1 => c1, o2 => c2', 'o1 => c1, q1 := b1']), ');\n']),
+    'expressions_names': _fbt([], ['  r := ', ('alt', ['a + b * c - d', '(a + b) * (c - d)', 'a AND b OR c XOR d', 'NOT a AND b', '-a + b', 'a < b = c', 'f1(a, b) + f2(c)', 'arr[i, j] + st.fld.sub', 'arr[i][j]', 'a ** b ** c', 'a MOD b / c']), ';\n']),
+    'variable_lists': ['FUNCTION_BLOCK fb\n', ('alt', ['VAR', 'VAR_INPUT', 'VAR_OUTPUT', 'VAR_IN_OUT', 'VAR_EXTERNAL', 'VAR_TEMP']), '\n  v1 : ty1;\n', ('opt', '  v4 : ty2;\n'), 'END_VAR\n', ('opt', 'VAR\n  v5 : ty3;\n  v6 : ty4;\nEND_VAR\n'), 'END_FUNCTION_BLOCK\n'],
+    'initialisers': _fbt([('alt', ['  v : sty := (e1 := k1);\n', '  v : sty := (e1 := k1, e2 := k2);\n', '  v : sty := (e1 := k1, e2 := k2, e3 := k3);\n', '  v : ARRAY[1..3] OF ety := [k1, k2, k3];\n', '  v : fbty := (i1 := k1, i2 := k2);\n', '  v : ety := k1;\n', '  v : ety := ety#k1;\n', '  v AT %IX1.2 : ety;\n'])], []),
+    'struct_and_enum_types': ['TYPE\n  sty : STRUCT\n    e1 : t1;\n', ('opt', '    e2 : t2;\n'), ('opt', '    e3 : ARRAY[1..2] OF t3;\n'), '  END_STRUCT;\n', ('opt', '  ety : (k1, k2, k3) := k2;\n'), ('opt', '  aty : bty;\n'), ('opt', '  arty : ARRAY[0..1] OF cty;\n'), 'END_TYPE\n'],
+    'sfc_elements': ['FUNCTION_BLOCK fb\nVAR\n  x : BOOL;\nEND_VAR\nINITIAL_STEP s0:\n', ('opt', '  act1(N);\n'), 'END_STEP\nSTEP s1:\n', ('alt', ['', '  act2(S, ind1);\n', '  act2(S, ind1);\n  act3(R, ind2, ind3);\n']), 'END_STEP\n',
+                     'TRANSITION ', ('opt', 'tr1 '), 'FROM ', ('alt', ['s0', '(s0, s1)']), ' TO ', ('alt', ['s1', '(s1, s0)']), '\n  := cond1;\nEND_TRANSITION\nTRANSITION FROM s1 TO s0\n  := cond2;\nEND_TRANSITION\n',
+                     'ACTION act1:\n  a := b;\n  c := d;\nEND_ACTION\nEND_FUNCTION_BLOCK\n'],
+    'configuration_elements': ['CONFIGURATION cfg\n', ('opt', 'VAR_GLOBAL\n  g1 : gt1;\n  g2 : gt2;\nEND_VAR\n'), 'RESOURCE res ON plc\n', ('opt', '  VAR_GLOBAL\n    g3 : gt3;\n  END_VAR\n'), '  TASK tk1(INTERVAL := T#100ms, PRIORITY := 1);\n', ('opt', '  TASK tk2(PRIORITY := 2);\n'),
+                               '  PROGRAM pi1 WITH tk1 : pt1', ('alt', ['', '(ia := va)', '(ia := va, ob => vb)']), ';\n', ('opt', '  PROGRAM pi2 : pt2;\n'), 'END_RESOURCE\nEND_CONFIGURATION\n'],
+    'pou_kinds': [('alt', ['FUNCTION f1 : rt\nVAR_INPUT\n  a : t1;\nEND_VAR\n  f1 := a;\nEND_FUNCTION\n', 'FUNCTION_BLOCK b1\nVAR\n  a : t1;\nEND_VAR\n  a := c;\nEND_FUNCTION_BLOCK\n', 'PROGRAM p1\nVAR\n  a : t1;\nEND_VAR\n  a := c;\nEND_PROGRAM\n']),
+                  ('opt', 'FUNCTION_BLOCK b2\nVAR\n  d : t2;\nEND_VAR\nEND_FUNCTION_BLOCK\n'), ('opt', 'TYPE\n  ty1 : (k1, k2);\nEND_TYPE\n'), ('opt', 'PROGRAM p2\nVAR\n  e : t3;\nEND_VAR\nEND_PROGRAM\n')],
+}
+
+# C10 templates not used here: edge-triggered inputs live in a list of their own (FunctionBlockDeclaration.edge_variables), so the
+# depth-first order of the library is not the source order by design
+K6_SKIP = {'edge_inputs'}
+
+def _all_templates():
+    from . import C10 as K10
+    d = {k: v for k, v in K10.TEMPLATES.items() if k not in K6_SKIP}; d.update(EXTRA_TEMPLATES); return d
+
+def _k6_job(job):
+    name, prefixes = job
+    from . import C10 as K10
+    ctx = _CTX; part = Part(); part.shapes = {}; part.tname = name; tpl = _all_templates()[name]
+    P = ctx.program()
+    k_parse = P.find_fn('ironplc-parser', 'parse_program')
+    k_opt = [k for k in P.items if k[0] == 'ironplc-parser' and re.search(r'ParseOptions as (std::default::)?Default>::default|options::<impl at [^>]*>::default', k[1])]
+    holder = {}; st = {}
+    M = Machine(P, stubs=K10.dyn_lexer_stubs(ctx, holder), max_steps=400_000_000)
+    dims = K10._shapes(tpl)
+    def entry(M):
+        choice = []
+        for i, d in enumerate(dims):
+            v = M.fresh_bv('seg%d' % i, 8); M.declare_domain(v, list(range(d)))
+            c = 0
+            for val in range(d - 1):
+                if M.branch(v == val): c = val; break
+                c = val + 1
+            choice.append(c)
+        st['choice'] = choice
+        text, expect = _uniquify(ctx, K10._tpl_text(tpl, choice)); st['src'] = text; st['expect'] = expect
+        fid = Ref(Cell(Agg('FileId', [Str('f.st')])))
+        opts = Ref(Cell(M.call_fn(k_opt[0], []) if k_opt else Agg('ParseOptions', [False])))
+        r1 = M.call_fn(k_parse, [Ref(Cell(Str(text))), fid, opts])
+        if r1.disc != 0: return None
+        out = []; _ids_in_order(M, r1.f[0], out)
+        return out
+    def on_path(M, pr):
+        part.paths += 1
+        src = st.get('src'); choice = tuple(st.get('choice') or ())
+        if pr.inconclusive: part.inconc('%s: %s' % (name, pr.inconclusive)); part.shapes[choice] = ('inconclusive', pr.inconclusive[:80], src, None); return
+        if pr.panic: part.shapes[choice] = ('fail', 'parse_program panics: %s' % pr.panic.msg[:80], src, None); part.nontrivial += 1; return
+        got = pr.result
+        if got is None: part.shapes[choice] = ('outside', None, src, None); return
+        part.nontrivial += 1
+        want = st['expect']
+        # only the (uniquified) identifiers are compared: elementary type keywords are represented differently from construct to construct
+        got = [g for g in got if re.fullmatch(r'nm\d+q', g)]; want = [w for w in want if re.fullmatch(r'nm\d+q', w)]
+        gl = [g.lower() for g in got]; wl = [w.lower() for w in want]
+        if gl == wl: part.shapes[choice] = ('ok', None, src, None)
+        elif sorted(gl) == sorted(wl): part.shapes[choice] = ('fail', 'the names come back in another order than written (written %s, library %s)' % (want, got), src, json.dumps({'written': want, 'library': got}))
+        else:
+            lost = [w for w in wl if wl.count(w) > gl.count(w)]; extra = [g for g in gl if gl.count(g) > wl.count(g)]
+            part.shapes[choice] = ('fail', 'names written but not in the library: %s; names in the library but not written: %s' % (sorted(set(lost)), sorted(set(extra))), src, json.dumps({'written': want, 'library': got}))
+        if len(part.samples) < 1: part.samples.append({'template': name, 'shape': list(choice), 'names': len(want)})
+    M.explore(entry, on_path, prefixes=prefixes)
+    part.queries += M.stats['smt']; part.encoded = set(M.encoded); part.models = set(M.models_used)
+    return part
+
+@replay_factory('name_sequence')
+def _replay_name_sequence(src, want_json):
+    def rp(ctx):
+        want = json.loads(want_json)
+        r = ctx.replay({'cmd': 'parse', 'source': src})
+        if 'panic' in r: return True, r
+        if not r.get('ok'): return None, {'note': 'source rejected', 'diag': str(r.get('diag'))[:200]}
+        # the Debug output prints an Id as its spelling: names in order of appearance
+        names = set(w.lower() for w in want)
+        got = [w for w in re.findall(r'[A-Za-z_][A-Za-z0-9_]*', re.sub(r'"[^"]*"', '', r['debug'])) if w.lower() in names and (w.startswith('nm') or w.isupper())]
+        got = [g for g in got if re.fullmatch(r'nm\d+q', g)]
+        wantu = [w for w in want if re.fullmatch(r'nm\d+q', w)]
+        return got != wantu, {'source': src, 'written': wantu, 'library': got}
+    return rp
+
+@kernel('K6 parser.names_in_source_order')
+def k6(ctx, kr):
+    global _CTX
+    _CTX = ctx
+    from . import C10 as K10
+    from framework import REPLAYS
+    import itertools
+    TPL = _all_templates()
+    names = list(TPL)
+    kr.bounds = ('%d source templates (declarations, statements, calls, initialisers, configurations, SFC; 23 shared with C10-K3) with symbolic shape selectors, every identifier occurrence renamed to a unique name: '
+                 'parse_program on the MIR; the depth-first sequence of names in the returned library must equal the sequence of name tokens written' % len(names))
+    jobs = []
+    for n in sorted(names, key=lambda n: -len(list(itertools.product(*[range(d) for d in K10._shapes(TPL[n])])))):
+        dims = K10._shapes(TPL[n]); first = dims[0] if dims else 1
+        for v in range(first): jobs.append((n, None) if first == 1 else (n, [K10._prefix_for(first, v)]))
+    shapes = {n: {} for n in names}
+    for part in par_map(_k6_job, jobs):
+        shapes[part.tname].update(part.shapes); merge_part(kr, part)
+    for n in names:
+        sh = shapes[n]
+        for lab, rep, members in K10._cubes(TPL[n], sh):
+            st_, what, src, extra = sh[rep]
+            want = json.dumps(json.loads(extra)['written']) if extra else '[]'
+            kr.findings.append(Finding('C01/K6/%s/%s' % (n, lab), '%s (%d shape%s of template %s; e.g. %r)' % (what, len(members), 's' if len(members) > 1 else '', n, src[-160:]),
+                                       {'source': src, 'shapes': [list(m) for m in members][:12]}, replay=REPLAYS['name_sequence'](src, want)))
+        oks = [c for c, r in sh.items() if r[0] == 'ok']
+        if oks and len(kr.validate) < 6:
+            src = sh[sorted(oks)[-1]][2]; kr.validate.append(('name_sequence', (src, json.dumps(_uniquify_expect(src)))))
+    kr.notes.append('shapes: %d faithful, %d not, %d outside the parser\'s domain' % (sum(1 for n in names for r in shapes[n].values() if r[0] == 'ok'), sum(1 for n in names for r in shapes[n].values() if r[0] == 'fail'), sum(1 for n in names for r in shapes[n].values() if r[0] == 'outside')))
+    P = ctx.program()
+    kr.functions = fn_paths(P, getattr(kr, '_enc', set()))[:120] + ['ironplc-parser::<TokenType as Logos>::lex (lifted)']
+    kr.exhaustive = True
+    kr.assumptions = ['oracle: an AST built by a faithful parser lists the names of a construct in the order they are written (every struct of ironplc_dsl declares its fields in source order); '
+                      'only identifiers are compared (elementary type keywords and literal values are outside this kernel: C09, K4)']
+    kr.outside = ['constructs and combinations not in the templates; literal values; which node kind a name ends up in']
+
+def _uniquify_expect(src):
+    return re.findall(r'nm\d+q', src)
+
+# ---------------------------------------------------------------------------------------------- K7 the sign written on an integer literal is the sign read
+@kernel('K7 parser.signed_integer_literals')
+def k7(ctx, kr):
+    from . import C09 as K09
+    K09._CTX = ctx
+    kr.bounds = 'as C09-K5: an integer literal with a symbolic sign character (+, - or none) and 2 symbolic digits as initial value, subrange bound, array bound and CASE selector, through parse_program'
+    for part in par_map(K09._k5_job, [(c, 2) for c in K09.SIGNED_CTX]):
+        for f in part.findings: f['role'] = f['role'].replace('C09/K5/', 'C01/K7/')
+        merge_part(kr, part)
+    P = ctx.program()
+    kr.functions = fn_paths(P, getattr(kr, '_enc', set()))[:100] + ['ironplc-parser::<TokenType as Logos>::lex (lifted)']
+    kr.exhaustive = True
+
+KERNELS = [k1, k4, k5, k6, k7]
